@@ -68,9 +68,17 @@ def build_and_validate_headers(headers: Iterable[Tuple[bytes, bytes]]) -> List[T
     # Validates that the header name and value are bytes
     validated_headers: List[Tuple[bytes, bytes]] = []
     for name, value in headers:
-        if name[0] == b":"[0]:
+        if not isinstance(name, (bytes, bytearray, memoryview)) or not isinstance(
+            value, (bytes, bytearray, memoryview)
+        ):
+            # Note bytes(5) is five NUL bytes, not an error
+            raise TypeError("Header names and values must be bytes")
+        name, value = bytes(name), bytes(value)
+        if name[:1] == b":":
             raise ValueError("Pseudo headers are not valid")
-        validated_headers.append((bytes(name).strip(), bytes(value).strip()))
+        if any(char in name or char in value for char in (b"\r", b"\n", b"\x00")):
+            raise ValueError("Headers must not contain CR, LF or NUL")
+        validated_headers.append((name.strip(), value.strip()))
     return validated_headers
 
 
